@@ -1,4 +1,4 @@
-import BqVerif.Model.QasmExpr
+import BqVerif.Model.QasmSpec
 /-! # Formal parameters: textual substitution of non-negative values = binding
 
 `replace_param_ids` + `replace_param_indices` + `eval_exp_recurse` splice the actual values
@@ -7,9 +7,6 @@ body expression once and binding the formals in the tree (`PE.evalEnv`). -/
 namespace BqVerif.Qasm
 
 variable {V : Type}
-
-/-- binding of names to values -/
-abbrev Env (V : Type) := String → Option V
 
 def tokBind (σ : Env V) : ETok V → ETok V
   | .name s => match σ s with
@@ -257,10 +254,6 @@ def QE.source : QE V → Bool
   | .pow a b => a.source && b.source
   | .call _ e => e.source
   | .bin _ l r => l.source && r.source
-
-/-- formals `ps` bound to the actual values `vs` (first occurrence of a repeated formal) -/
-def formalEnv (ps : List String) (vs : List V) : Env V :=
-  fun s => if ps.contains s then vs[ps.idxOf s]? else none
 
 theorem flatten_subst (A : Arith V) (ps : List String) (vs : List V)
     (hnn : ∀ v ∈ vs, A.isNeg v = false) (q q' : QE V) (hsrc : q.source = true)
